@@ -37,7 +37,45 @@ def c01(r):
         return "K-heading-hardbreak: a hard break inside a multi-line Setext heading cannot be expressed in the ATX heading that is emitted"
     return None
 
-RULES = {"C01": c01}
+def c02(r):
+    t, sig = r["describe"]["text"], r["sig"]
+    p1, p2 = r["detail"].get("pass1", ""), r["detail"].get("pass2", "")
+    if "sem-only" in sig:
+        return "K-sem"
+    if t.strip() == "---":
+        return "K-fm-unclosed"
+    if re.search(r"\d+\)", t) and re.search(r"\d+\.", p1):
+        return "K-delim"
+    if "[^" in t:
+        return "K-footnote-body"
+    if t.startswith("- [x]: u"):
+        return "K-def-in-item"
+    if re.search(r"(\\|  )\n.*\n(---|===)", t, re.S):
+        return "K-heading-hardbreak"
+    if ("..." in p1 and "…" in p2) or ("'" in p1 and "’" in p2):
+        return "K-typo-context"
+    if re.search(r"(^|\n)[> ]*>\n", p1) and re.search(r"(^|\n)[> ]*> +\n", p2):
+        return "K-quote-blank"
+    if re.search(r"(^|\n)[ >]*>? *\n", p1) and "- > -" in t:
+        return "K-nested-first-loose"
+    if re.search(r"1\\\.", p1) and not re.search(r"1\\\.", p2):
+        return "K-literal-period"
+    if re.search(r"\\\n", p1) and "\\ " in t:
+        return "K-bslash"
+    if re.search(r"^(\*\*\*|---|___)\n", p1) and re.search(r"^(\*\*\*|---|___) ", t):
+        return "K-first-word-hr"
+    if re.search(r"\{% /t %\}", t) and re.search(r"(^|\n)\{% /t %\}", p1 + p2):
+        return "K-closing-tag-unindent"
+    if re.search(r"(\{%|\{\{|<!--)", t) and "|" in t and r["space"] == "blocks":
+        return "K-tag-block-in-container"
+    if re.search(r"(\{%|\{\{|<!--)", t) and re.search(r"\d\. ", t) and r["space"] == "blocks":
+        return "K-tag-block-in-container"
+    if re.search(r"(\{%|\{\{|<!--)", t) and "|" in t:
+        return "K-tag-block-heuristic"
+    return None
+
+
+RULES = {"C01": c01, "C02": c02}
 
 def main():
     prop, dump = sys.argv[1], sys.argv[2]
